@@ -178,12 +178,35 @@ def test3():
         out[(flavour, opname)] = dt
     return out
 
+def test3b():
+    print("== 3b. a hang is reported, not hidden (delay injection 3 s, CCH_TIMEOUT_MS=1000); driver timeout kills everything")
+    d = os.path.join(trace.SCRATCH, "selftest-3b")
+    try:
+        for kind in ("hang", "timeout"):
+            shutil.rmtree(d, ignore_errors=True)
+            os.makedirs(d + "/c"); os.makedirs(d + "/e")
+            t = time.time()
+            if kind == "hang":
+                r = trace.trace_ops("sync", d + "/c", d + "/e", [wop("sync"), {"op": "list"}], env={"CCH_TIMEOUT_MS": "1000"},
+                                    inject="mkdir:delay_enter=3000000:when=2")
+                assert r["results"] == [{"r": "hang"}, None] and r["exit"] == 3, (r["results"], r["exit"])
+            else:
+                r = trace.trace_ops("tok", d + "/c", d + "/e", [wop("tok"), {"op": "list"}], timeout=2,
+                                    inject="mkdir:delay_enter=30000000:when=2")
+                assert r["results"] == [None, None] and r["killed_by"] == "SIGKILL" and r["info"]["timed_out"]
+                assert time.time() - t < 6
+            print("   %-7s results=%s exit=%s %.1fs" % (kind, [short(x) for x in r["results"]], r["exit"], time.time() - t))
+            trace.cleanup(r)
+    finally:
+        shutil.rmtree(d, ignore_errors=True)
+
 def main():
     t0 = time.time()
     os.makedirs(trace.SCRATCH, exist_ok=True)
     test1()
     k = test2()
     f = test3()
+    test3b()
     print("== 4. timings (jobs=%d)" % JOBS)
     for fl, dt in k.items():
         print("   kill_sweep write %-5s %.1fs %s" % (fl, dt, "(target < 60s: OK)" if dt < 60 else "(TOO SLOW)"))
